@@ -522,6 +522,19 @@ class Interp:
             return True
         if isinstance(l, Sym) and isinstance(r, Sym) and l.distinct and r.distinct:
             return False  # two different generic user-chosen names
+        if isinstance(l, Sym) and isinstance(r, Sym) and l.origin and r.origin and l.origin[0] == "sql" and r.origin[0] == "sql" \
+                and isinstance(l.origin[1], NodeV) and isinstance(r.origin[1], NodeV) and not l.origin[1].open and not r.origin[1].open \
+                and l.origin[1] is not r.origin[1] and l.origin[1].name != r.origin[1].name:
+            return False  # renderings of two differently named closed descriptor nodes
+        if isinstance(l, Str) and isinstance(r, Str):
+            if l.text() == r.text():
+                return True  # the same abstract text
+            lh, rh = [p for p in l.parts if not isinstance(p, str)], [p for p in r.parts if not isinstance(p, str)]
+            if len(l.parts) == 1 and len(r.parts) == 1 and len(lh) == 1 and len(rh) == 1:
+                lo, ro = getattr(lh[0], "origin", None), getattr(rh[0], "origin", None)
+                if lo and ro and lo[0] == "sql" and ro[0] == "sql" and isinstance(lo[1], NodeV) and isinstance(ro[1], NodeV) \
+                        and not lo[1].open and not ro[1].open and lo[1] is not ro[1] and lo[1].name != ro[1].name:
+                    return False  # renderings of two differently named closed descriptor nodes
         if isinstance(l, Const) and l.v is None:
             return self.is_none(r)
         if isinstance(r, Const) and r.v is None:
@@ -704,6 +717,10 @@ class Interp:
                     return f
             if base.kind in ("duck", "arrow"):
                 return Bound(base, a)
+            if base.cls:
+                cv = self.class_attr(base.cls[0], base.cls[1], a)
+                if cv is not None:
+                    return cv
             if base.cls and not getattr(base, "lazy_done", False):
                 # a hand-built abstract object (execmodel.make_session): attributes its constructor would have created
                 # (helpers, caches, wrappers) are materialised on first miss by interpreting __init__ on a shadow object
@@ -1015,6 +1032,19 @@ class Interp:
             return ExcV(d, kwargs, args)
         return Sym(f"{d}()@{self.siteid(site)}", origin=("call", d, args, kwargs))
 
+    def class_attr(self, mod: str, cls: str, name: str):
+        """value of a class-level assignment `name = ...` / `name: T = ...` (evaluated once per run in the module's environment)"""
+        cache = self.__dict__.setdefault("_class_attrs", {})
+        key = (mod, cls, name)
+        if key not in cache:
+            cache[key] = None
+            cdef = self.prog.modules[mod].classes.get(cls) if mod in self.prog.modules else None
+            for st in (cdef.body if cdef is not None else []):
+                tgt = st.targets[0] if isinstance(st, ast.Assign) and len(st.targets) == 1 else st.target if isinstance(st, ast.AnnAssign) else None
+                if isinstance(tgt, ast.Name) and tgt.id == name and getattr(st, "value", None) is not None:
+                    cache[key] = self.ev(st.value, self.modenv(mod))
+        return cache[key]
+
     def _lazy_init(self, base: Obj) -> None:
         mod, cls = base.cls
         init = self.find_method(mod, cls, "__init__")
@@ -1132,6 +1162,10 @@ class Interp:
             return Sym(f"{b}({','.join(tagof(x) for x in args)})", origin=("call", b, args, kwargs))
         if d == "functools.partial" and args:
             return Part(args[0], args[1:], kwargs)
+        if d == "re.compile" and args:
+            self.effect("call", d, args, kwargs, site)
+            return Obj(f"re.compile({tagof(args[0])[:40]})@{self.siteid(site)}", kind="regex", pattern=args[0],
+                       flags=kwargs.get("flags", args[1] if len(args) > 1 else None))
         if d == "types.MappingProxyType" and args and isinstance(args[0], Dct):
             return args[0]  # a read-only view: same lookups, nobody can write through it
         if d in ("builtins.frozenset", "frozenset") and args and isinstance(args[0], (Lst, Tup)):
@@ -1288,6 +1322,13 @@ class Interp:
         if isinstance(recv, Obj):
             if recv.kind == "duck":
                 return self.hooks.engine(self, recv, name, args, kwargs, site)
+            if recv.kind == "regex" and name in ("sub", "subn", "search", "match", "fullmatch", "findall", "finditer", "split"):
+                # <compiled>.sub(repl, text, count) == re.sub(pattern, repl, text, count, flags): present it in the module
+                # function's argument layout so that every hook and rule sees one form
+                kw = dict(kwargs)
+                if recv.attrs.get("flags") is not None:
+                    kw.setdefault("flags", recv.attrs["flags"])
+                return self.call_ext(f"re.{name}", [recv.attrs["pattern"], *args], kw, site, env)
             om = getattr(self.hooks, "obj_method", None)
             if om is not None:
                 r = om(self, recv, name, args, kwargs, site)
@@ -1609,6 +1650,31 @@ class Interp:
                 v = Sym(f"({tagof(cur)} {type(s.op).__name__}= {tagof(rhs)})", origin=("binop", type(s.op).__name__, cur, rhs))
             self.assign(s.target, v, env, s)
             return
+        if isinstance(s, ast.While):
+            # concrete tests are followed (bounded); an unknown test is decided per iteration, at most twice
+            n_iter, unknown = 0, 0
+            broke = False
+            while True:
+                t = self.ev(s.test, env)
+                if not isinstance(t, Const):
+                    unknown += 1
+                    if unknown > 2:
+                        break
+                if not self.truth(t):
+                    break
+                n_iter += 1
+                if n_iter > 256:
+                    raise PathLimit(f"while loop at {env.mod}:{s.lineno} exceeds 256 iterations")
+                try:
+                    self.block(s.body, env)
+                except _Break:
+                    broke = True
+                    break
+                except _Continue:
+                    continue
+            if not broke and s.orelse:
+                self.block(s.orelse, env)
+            return
         if isinstance(s, ast.If):
             if self.truth(self.ev(s.test, env)):
                 self.block(s.body, env)
@@ -1700,7 +1766,43 @@ class Interp:
             return
         if isinstance(s, (ast.Import, ast.ImportFrom, ast.Global, ast.Nonlocal, ast.ClassDef, ast.Delete)):
             return
+        if isinstance(s, ast.Match):
+            subject = self.ev(s.subject, env)
+            for case in s.cases:
+                if self.match_pattern(case.pattern, subject, env) and (case.guard is None or self.truth(self.ev(case.guard, env))):
+                    self.block(case.body, env)
+                    return
+            return
         raise Unsupported(f"interp: unsupported statement {type(s).__name__} at {env.mod}:{s.lineno}")
+
+    def match_pattern(self, pat, v, env: Env) -> bool:
+        """structural pattern matching: class patterns (with keyword sub-patterns), values, captures, wildcard, alternatives"""
+        if isinstance(pat, ast.MatchAs):
+            if pat.pattern is not None and not self.match_pattern(pat.pattern, v, env):
+                return False
+            if pat.name:
+                env.vars[pat.name] = v
+            return True
+        if isinstance(pat, ast.MatchOr):
+            return any(self.match_pattern(p, v, env) for p in pat.patterns)
+        if isinstance(pat, ast.MatchValue):
+            return self.equal(v, self.ev(pat.value, env))
+        if isinstance(pat, ast.MatchSingleton):
+            return isinstance(v, Const) and v.v is pat.value
+        if isinstance(pat, ast.MatchClass):
+            cls = self.ev(pat.cls, env)
+            if not self.isinstance(v, cls):
+                return False
+            if pat.patterns:
+                raise Unsupported(f"interp: positional class patterns at {env.mod}:{pat.lineno}")
+            return all(self.match_pattern(p, self.getattr(v, k, pat), env) for k, p in zip(pat.kwd_attrs, pat.kwd_patterns))
+        if isinstance(pat, ast.MatchSequence):
+            if not isinstance(v, (Lst, Tup)) or getattr(v, "open", False) or any(isinstance(p, ast.MatchStar) for p in pat.patterns) \
+                    or len(v.items) != len(pat.patterns):
+                return False if isinstance(v, (Lst, Tup)) and not getattr(v, "open", False) and not any(isinstance(p, ast.MatchStar) for p in pat.patterns) else \
+                    self.decide(f"match-sequence@{self.siteid(pat)}")
+            return all(self.match_pattern(p, x, env) for p, x in zip(pat.patterns, v.items))
+        raise Unsupported(f"interp: unsupported pattern {type(pat).__name__} at {env.mod}:{pat.lineno}")
 
     def st_try(self, s: ast.Try, env: Env) -> None:
         try:
